@@ -97,7 +97,22 @@ pub fn run() -> Report {
             let verify = i % 2 == 1;
             let verb = ((i / 2) % 4) as u8;
             let chain = if c.big { &big } else { &small };
-            let plain_world = build_world(btc, &chain.blocks, 0, &c.layout);
+            let mut plain_world = build_world(btc, &chain.blocks, 0, &c.layout);
+            // every fourth case: other key files within reach - the home directory (= the data directory here) holds a
+            // Bitcoin Core default blocks folder with a key of its own, there is a key one level up, in a sub-folder, and
+            // under look-alike names; only <data dir>/xor.dat says how THIS directory is stored
+            if i % 4 == 1 {
+                use refmodel::world::Extra;
+                let other = vec![0x6b, 0x65, 0x79, 0x21, 0x00, 0xa5, 0x5a, 0xff];
+                plain_world.extra.push(Extra::Dir(".bitcoin/blocks".into()));
+                plain_world.extra.push(Extra::File(".bitcoin/blocks/xor.dat".into(), other.clone()));
+                plain_world.extra.push(Extra::Dir("blocks".into()));
+                plain_world.extra.push(Extra::File("blocks/xor.dat".into(), other.clone()));
+                plain_world.extra.push(Extra::File("../xor.dat".into(), other.clone()));
+                plain_world.extra.push(Extra::File("xor.dat.old".into(), other.clone()));
+                plain_world.extra.push(Extra::File("XOR.DAT".into(), other));
+                acc.count("other-key-files-within-reach", 1);
+            }
             let mut xor_world = plain_world.clone();
             xor_world.xor_key = Some(c.key.clone());
             acc.states += 1;
